@@ -2,6 +2,7 @@
    Subject: Model/Ledger.v, whose operation lists and join/drop facts are Gen/Ledger.v (regenerated from the source). *)
 From Coq Require Import List Arith Bool.
 From LokyV Require Import Lib.LedgerLib Gen.Ledger Model.Ledger Proofs.LedgerThm.
+From LokyV Require Model.FeederPipe Proofs.FeederPipeThm.
 Import ListNotations.
 
 (* Repeating any history (any events, any number of executors one after the other, with or without psutil) any number of times
@@ -48,3 +49,22 @@ Example C20_example :
   /\ ledger (run true (rep 5 (h_broken ++ NewExecutor :: h_plain ++ NewExecutor :: h_broken)) world0) = mkc 1 0 0 1
   /\ ledger (run false (rep 7 h_broken) world0) = mkc 0 0 0 0.
 Proof. vm_compute. auto. Qed.
+
+(* ---- the feeder thread after the workers have been killed (Model/FeederPipe.v; finding H17, fixed) ----
+   a feeder blocked writing a large task into the full call-queue pipe gets EPIPE -- and ends -- only when no read end of the pipe
+   is open; the parent holds one although it never reads, and Queue.close() only queues a sentinel the blocked feeder never sees.
+   kill_workers() closes the parent's handle once every worker is dead (generated fact).  Hence: after kill_workers() and
+   call_queue.close(), in either order, whatever happened before and in between, the feeder ends at its next step and stays ended.
+   On the pinned source it stayed blocked for ever: one thread, the queue, two descriptors and three semaphores per forced shutdown
+   with a large task in flight (findings/H17_real.py). *)
+Theorem C20_forced_shutdown_ends_the_feeder_thread :
+  forall es1 es2 es3 s,
+    FeederPipe.th (FeederPipe.step kill_workers_closes_the_call_queue_reader
+                     (FeederPipe.run kill_workers_closes_the_call_queue_reader
+                        (es1 ++ FeederPipe.KillAll :: es2 ++ FeederPipe.CloseQueue :: es3) s) FeederPipe.FeederStep) = FeederPipe.Ended.
+Proof. exact FeederPipeThm.forced_shutdown_ends_the_feeder. Qed.
+Print Assumptions C20_forced_shutdown_ends_the_feeder_thread.
+Example C20_h17_blocked_for_ever :
+  let s := FeederPipe.run false [FeederPipe.FeederStep; FeederPipe.FeederStep; FeederPipe.KillAll; FeederPipe.CloseQueue] (FeederPipe.mkfp FeederPipe.Idle 2 false 1 2 true) in
+  FeederPipe.th s = FeederPipe.Blocked /\ forall e, FeederPipe.step false s e = s.
+Proof. exact FeederPipeThm.h17_blocked_for_ever. Qed.
